@@ -111,6 +111,8 @@ struct GenCfg {
   bool inline_insn = true;   // use `inline` as well as `call`
   bool multi_module = false; // spread functions over modules with import/export
   int min_funcs = 1;
+  bool layered_modules = false;  // calls go to the same or an earlier module only
+  bool passive_items = false;  // lref tables of function labels and a never-called function with a hard-register variable
   int forward_calls_chance = 0;  // of 256: the callee is a function generated after the caller (no recursion through it)
   int first_block_calls = 0;   // up to this many calls at the start of the first block (always executed)
   int prologue_alloca_chance = 100;  // of 256
@@ -567,6 +569,9 @@ struct ProgGen {
     // mostly acyclic call graphs keep link-time inlining within its growth budget (later call sites are still inlined)
     if (cfg.forward_calls_chance > 0 && func_index + 1 < (int) sigs.size () && cs.chance (cfg.forward_calls_chance))
       callee = (int) cs.range (func_index + 1, sigs.size () - 1);
+    if (cfg.layered_modules)  // a module only calls into itself and modules loaded before it (it can be linked before later ones exist)
+      for (int tries = 0; sigs[callee].module > sigs[func_index].module && tries < (int) sigs.size (); tries++)
+        callee = (callee + 1) % (int) sigs.size ();
     const FuncSig &s = sigs[callee];
     if (!sig_usable (s.res, s.args)) return;
     feat.call = true;
@@ -869,6 +874,28 @@ struct ProgGen {
     fn.insns.emplace_back (MIR_RET, ret_ops ());
     // irreducibility label: a block other than the first is a branch target from an earlier and a later block
     mod.add_func (fn);
+    if (cfg.passive_items) {
+      // label reference tables of this function (one- and two-label forms); nothing reads them
+      for (int k = cs.weighted ({4, 3, 1}); k > 0; k--) {
+        DataItem d;
+        d.k = DataItem::LREF;
+        d.name = "tab" + std::to_string (idx) + "_" + std::to_string (k);
+        d.ref = fn.lab_prefix;
+        d.lab = (int) cs.range (0, fn.nlabels - 1);
+        d.lab2 = cs.chance (150) ? (int) cs.range (0, fn.nlabels - 1) : -1;
+        d.disp = cs.flip () ? 0 : (int64_t) cs.range (1, 40);
+        mod.add_data (d);
+      }
+      // a never-called function with a variable tied to a hard register
+      if (cs.chance (70)) {
+        Func g;
+        g.name = "gv" + std::to_string (idx);
+        static const char *hr[] = {"r12", "r13", "r14", "r15", "rbx"};
+        g.raw_text = g.name + ":\tfunc\ti64, i64:a\n\tlocal\ti64:b\n\tglobal\ti64:g:" + hr[cs.range (0, 4)]
+                     + "\n\tadd\tb, a, g\n\tadd\tg, g, 1\n\tret\tb\n\tendfunc\n";
+        mod.add_func (g);
+      }
+    }
     f = nullptr;
   }
 
